@@ -22,11 +22,12 @@ def levels(tier):
              "links_batch": 1, "log_writes": True},
         ]
     return [
-        {"name": "short-n2", "pools": [[[1], [1, 1], [1, 1]]], "n": 2, "alphabet": ["page", "links", "we", "batch", "rule"], "links_batch": 2,
-         "batch_targets": 2, "log_writes": True},
-        {"name": "short-n3", "pools": [[[1], [1, 1], [1, 1]]], "n": 3, "alphabet": ["page", "links", "we"], "links_batch": 1, "log_writes": True},
         {"name": "long-n2", "pools": [[[74], [74, 1], [1]], [[1, 148], [1, 100], [2]], [[147], [73, 75], [1]]], "sparse": True, "n": 2,
          "alphabet": ["page", "links", "we"], "links_batch": 1, "log_writes": True},
+        {"name": "short-n2-wide", "pools": [[[1], [1, 1], [1, 1]]], "n": 2, "alphabet": ["page", "links", "we", "batch", "rule"], "links_batch": 1,
+         "batch_targets": 1, "log_writes": True},
+        {"name": "clear-n3", "pools": [[[1], [1, 1], [2]]], "n": 3, "alphabet": ["links", "clear", "overwrite"], "links_batch": 1, "log_writes": True},
+        {"name": "short-n3", "pools": [[[1], [1, 1], [1, 1]]], "n": 3, "alphabet": ["page", "links"], "links_batch": 1, "log_writes": True},
     ]
 
 
